@@ -105,6 +105,10 @@ def asm_block_rules(run):
         okb = len(ds) == 1 and ds[0][0] == "call" and (ds[0][2].get("callee") or "").endswith("Clone::clone") and deep(g, ds[0][2]["args"][0]) == "P5"
     run.check(bool(okb), R, R + "|inner-context", g.loc(), "each instruction and label of the block is evaluated in a copy of the context whose position is the block-local position",
               "resolve_once no longer evaluates the block's instructions/labels with a context positioned at the block-local position: `$` and label values inside the block would be those of the enclosing instruction")
+    # everything else of the context is the call site's: only the position and the pass flags are replaced
+    extra = sorted(set(stores) - {"bank_data", "is_first_iteration", "is_last_iteration"})
+    run.check(not extra, R, R + "|inner-context|only-position-and-flags", g.loc(), "the block's context differs from the call site's only in the position and the pass flags",
+              "resolve_once also replaces %s in the context it evaluates the block in: symbols, banks and files named inside the block would no longer be those of the place where the instruction stands (a `.local` label handed to the block would be unknown)" % extra)
     # strictness of the inner passes must follow the outer pass
     if "is_last_iteration" in stores:
         src, st = stores["is_last_iteration"]
@@ -345,7 +349,24 @@ def args_rules(run, R="ARGS"):
             root = f.raw.get("root") or f.id
             key = "%s|%s|args[%s]" % (R, root, idx if idx is not None else "i")
             audited = {e["key"]: e["reason"] for e in run.table("err").get("args_audited", [])}
+            needs_nonempty = {e["key"] for e in run.table("err").get("args_audited", []) if e.get("requires_nonempty_contents")}
             if key in audited and not (have is not None and (idx is None or idx < have)):
+                if key in needs_nonempty:
+                    # the audit's argument rests on `an empty file was answered earlier`: the read is behind the `not empty` edge of a
+                    # test of the contents' length (a test of a requested length does not count)
+                    behind = False
+                    for b2, s2, st2 in f.stmts():
+                        if st2["k"] == "assign" and st2["rv"]["k"] == "binop" and st2["rv"]["op"] in ("Eq", "Ne") and "0_usize" in (deep(f, st2["rv"]["l"], 3), deep(f, st2["rv"]["r"], 3)) \
+                                and not any("expect_usize(" in deep(f, o_, 8) for o_ in (st2["rv"]["l"], st2["rv"]["r"])):
+                            tt2 = f.blocks[b2]["term"]
+                            if tt2["k"] == "switch":
+                                ft2 = [tg for v, tg in tt2["targets"] if v == "0"]
+                                edge = (ft2[0] if ft2 else None) if st2["rv"]["op"] == "Eq" else tt2["otherwise"]
+                                if edge is not None and f.edge_dominates(b2, edge, bi):
+                                    behind = True
+                    if not behind:
+                        run.violation(R, key, f.loc(t["span"]), "%s reads `args[%s]` in an error path that was audited as unreachable without that argument because an empty file is answered earlier; the read is no longer behind a `contents are not empty` test, so `%s(\"empty file\")` with one argument reaches it and panics (index out of bounds)" % (root, idx, root.rsplit("_", 1)[-1]))
+                        continue
                 run.exception(R, key, f.loc(t["span"]), "argument %s is read without a dominating count check -- cannot be reached without it: %s" % (idx, audited[key]))
                 continue
             ok = have is not None and (idx is None or idx < have)
